@@ -98,6 +98,8 @@ def draw_scenario(cs, cfg):
     sc["zkind"] = ["tensor_grad", "tensor_nograd", "float"][cs.weighted([3, 1, 1], "zkind")]
     sc["usage"] = ["fwd", "bwd", "bwd2", "linearity", "fault_retry", "bwd_twice"][cs.weighted([1, 4, 3, 1, 1, 2], "usage")]
     sc["fault_k"] = cs.randint(1, 12, "fault_k")
+    # a peer fails inside the BACKWARD pass (at its k-th entry there); the pass is then repeated fault-free and judged
+    sc["bwd_fault"] = cs.randint(1, 8, "bwd_fault_k") if cs.bool("bwd_fault", 1, 4) else 0
     sc["lb"], sc["ub"] = [(-2.0, 2.0), (-1.0, 3.0), (float("-inf"), float("inf"))][cs.draw(3, "bounds")]
     # options for the backward pass that differ from the forward ones: the backward pass integrates over the
     # samples of the forward pass, so sampler options given for it must not change which samples are used
@@ -512,6 +514,25 @@ def run(cs, cfg):
         rec.phase = "bwd"
         gx = None
         import contextlib as _cl
+        if sc.get("bwd_fault") and rf.requires_grad:
+            from xsim.probe import InjectedFault
+            SIM.set_plan({SIM.seq + sc["bwd_fault"]: "raise"})
+            failed = False
+            with warnings.catch_warnings():
+                warnings.simplefilter("ignore")
+                try:
+                    torch.autograd.grad((rf * w).sum(), leaves, allow_unused=True, create_graph=cg, retain_graph=True)
+                except BaseException:   # noqa  (autograd may re-wrap the peer's exception)
+                    failed = True
+            SIM.set_plan({})
+            if failed:
+                cnt("fault.raise_in_backward")
+                cnt("fault.retry_after_fault")
+                for A, sn in zip(env.actors, snaps):
+                    for inv, detail in compare(sn, A):
+                        V("object_state_after_fault", "after a peer failed inside the backward pass: %s: %s" % (inv, detail))
+            else:
+                cnt("fault_not_reached")
         stack = _cl.ExitStack()
         if sc.get("bwd_under_subst") and env.actors and not cg:
             # the objects hold other tensors now than during the forward pass (a caller-opened substitution,
